@@ -141,7 +141,8 @@ NumRecord ==
                ELSE IF mv.st = "ok" THEN Out(VIn(mv, BaseUnits)) ELSE Out(mv),
       mdim |-> mv.dim,
       tags |-> (IF NumCfg(ci).env = "custom" THEN {"custom_unit_env"} ELSE {})
-               \cup (IF UsesCustom(s) THEN {"custom_unit_operand"} ELSE {})]
+               \cup (IF UsesCustom(s) THEN {"custom_unit_operand"} ELSE {})
+               \cup (IF v.st = "mismatch_inv" THEN {"inverse_dimension_operands"} ELSE {})]
 NumRefines == NParse(s).ok => NMach(s) = NTree(s)
 
 \* everything the record and the refinement check need, computed once per state
@@ -157,7 +158,10 @@ LogInfo ==
       mout == IF mt = NERR THEN "E" ELSE IF ~LTreeOK(mt) THEN "U" ELSE IF mv.num THEN "U" ELSE mv.r
   IN [ok |-> pr.ok, cls |-> cls, it |-> it, mt |-> mt, mout |-> mout,
       ideal |-> IF cls = "value" THEN (IF v.b THEN "T" ELSE "F") ELSE "",
-      tags |-> (IF pr.ok THEN CmpFeatures(pr.tree, 1).f ELSE {}) \cup (IF LTreeOK(mt) THEN mv.dev ELSE {})]
+      \* "result_bare_bool": the value of the whole expression is what == returned (numpy.bool_ / bool,
+      \* not a BooleanType) - section 8 tracks the python type because the callers depend on it
+      tags |-> (IF pr.ok THEN CmpFeatures(pr.tree, 1).f ELSE {}) \cup (IF LTreeOK(mt) THEN mv.dev ELSE {})
+               \cup (IF LTreeOK(mt) /\ ~mv.num /\ mv.r # "E" /\ mv.pt \in {"np", "py"} THEN {"result_bare_bool"} ELSE {})]
 LogRecord(i) ==
   [mode |-> "log", id |-> idx, ci |-> ci, env |-> LogCfg(ci).env, s |-> s, cls |-> i.cls, itree |-> i.it, mtree |-> i.mt,
    ideal |-> i.ideal, mach |-> i.mout,
